@@ -164,6 +164,10 @@ def clause_property(rule, clause, flags=()):
         ps.add("C10")
     if clause == "Label":
         ps.add("C17")
+        if rule not in ("RandomDictator", "BoostedRandomDictator", "PluralityVeto"):
+            # outside the intentionally random rules (and the random transfer, see judge) the only draw is the fallback of a tiebreak: a wrong
+            # label there means the tie was not resolved "by that score of the profile, at random only among candidates still tied on it"
+            ps.add("C10")
         if rule in STV_RULES and True:
             ps.add("C03")       # the label of a random transfer is its hypergeometric probability
     if clause == "DPC":
@@ -234,6 +238,8 @@ def judge(res, pid, traces, workdir, monitors=etrace.ALL_MONITORS, nontrivial=No
             live = live_flags(t["cfg"]["rule"], rec.get("flags", []))
             if pid == "C10" and clause == "Error:ValueError" and live:
                 continue        # an exception in a state covered by a recorded C01 finding is not a tie-discipline matter
+            if pid == "C10" and clause == "Label" and t["cfg"]["xfer"] == "random":
+                continue        # the label of a random surplus transfer is C03's / C17's matter
             if pid in clause_property(t["cfg"]["rule"], clause, live):
                 sig = signature(t, clause, rec.get("flags", []))
                 if t["_inp"].get("mixed") and clause.startswith("Error:") and not live:
@@ -292,7 +298,7 @@ def family_configs(family, nc):
                 for q in ("droop", "hare"):
                     for sm in (True, False):
                         for x in ("fractional", "random", "full"):
-                            for tb in ("none", "random", "borda"):
+                            for tb in ("none", "random", "borda", "first_place"):
                                 out.append(base_cfg(rule="Alaska", m=m2, m1=m1, quota=q, simul=sm, xfer=x, tb=tb))
     elif family == "tiered":
         out.append(base_cfg(rule="DominatingSets"))
@@ -386,8 +392,11 @@ def standard_run(pid, tier, seed, replay, mc_runs, corpus_fn, nontrivial, rule_t
     res = Result(pid, tier, seed)
     scratch(pid)
     res.rule = rule_text
+    res.replayed = bool(replay)
     if replay:
         inputs = [json.load(open(replay))["replay"]["input"]]
+        if "hasK" in inputs[0].get("cfg", {}):           # a score-rule input (C01's score_rules slice): replayed by the extra step
+            res.replay_score_input, inputs = inputs[0], []
     else:
         for i, mc in enumerate(mc_runs[tier]):
             model_check(res, pid, mc["family"], mc.get("cands", ["A", "B", "C"]), mc["max_ballots"], mc["max_w"],
